@@ -59,6 +59,10 @@ def classify(diags, meta):
         msg = d.get('message', '')
         if msg.startswith('aborting due to'):
             continue
+        if d.get('code'):
+            # rustc error (E0xxx): the generated text does not compile => undecided, not a failure
+            fatal.append(d)
+            continue
         spans = d.get('spans', [])
         prim = [s for s in spans if s.get('is_primary')]
         sec = [s for s in spans if not s.get('is_primary')]
@@ -116,6 +120,14 @@ def classify(diags, meta):
                 continue
         # assertion, overflow, index, unreachable, recommends ... : located by primary span
         if pm and 'fn' in pm:
+            is_verif = any(k in msg for k in (
+                'assertion failed', 'possible arithmetic', 'possible bit shift', 'possible division',
+                'precondition not satisfied', 'postcondition not satisfied', 'unreachable',
+                'index', 'decreases', 'recommendation not met', 'termination', 'panic',
+                'invariant', 'bit-vector', 'assert_by', 'resolved'))
+            if not is_verif:
+                fatal.append(d)
+                continue
             if pm.get('part') == 'hint':
                 rec.update(fn=pm['fn'], kind='hint', clause='hint.%s' % pm.get('clause'), tags=None)
             elif pm.get('part') == 'twin':
@@ -123,13 +135,6 @@ def classify(diags, meta):
             elif str(pm.get('part', '')).startswith('loop'):
                 rec.update(fn=pm['fn'], kind='inv', clause='%s.inv' % pm['part'], tags=None)
             else:
-                is_verif = any(k in msg for k in (
-                    'assertion failed', 'possible arithmetic', 'possible bit shift', 'possible division',
-                    'precondition not satisfied', 'postcondition not satisfied', 'unreachable',
-                    'index', 'decreases', 'recommendation not met', 'termination', 'panic'))
-                if not is_verif:
-                    fatal.append(d)
-                    continue
                 rec.update(fn=pm['fn'], kind='safety', clause='safety', tags=None)
             failures.append(rec)
             continue
